@@ -1226,7 +1226,9 @@ Proof.
     try (inversion H; subst; eexists; split; [reflexivity|]; split; [assumption|reflexivity]; fail).
   destruct sh as [sh|]; [|inversion H; subst; eexists; split; [reflexivity|]; auto].
   destruct hd; [|inversion H; subst; eexists; split; [reflexivity|]; auto].
-  destruct (is_array t) eqn:Ea; [|inversion H; subst; eexists; split; [reflexivity|]; auto].
+  destruct (is_array t && negb (ctype_eqb t DimCoord)) eqn:Ea;
+    [|inversion H; subst; eexists; split; [reflexivity|]; auto].
+  apply andb_true_iff in Ea as [Ea Edc].
   destruct (assoc k (caxes s)) as [ca|] eqn:Eca; [|discriminate].
   destruct (memb a ca); [inversion H; subst; eexists; split; [reflexivity|]; auto|].
   cbv zeta in H.
@@ -2362,3 +2364,390 @@ Lemma convert_carries_named s k full rk cs ancs :
   (forall c, In c cs -> exists t p, In (t, c, p) (cons (fst (convert k full s))) /\ is_coord t = true) /\
   (forall term a, In (term, Some a) ancs -> exists p, In (DomainAnc, a, p) (cons (fst (convert k full s)))).
 Proof. intros I. apply refs_resolve. apply convert_inv; assumption. Qed.
+
+(* ------------------------------------------------------------------ *)
+(* every dimension coordinate has 1-dimensional data and spans one axis *)
+(* ------------------------------------------------------------------ *)
+Definition Dim1 (s : cstate) : Prop :=
+  forall k sh b, In (DimCoord, k, PArr (Some sh) true b) (cons s) -> length sh = 1%nat.
+
+Lemma dim1_init : Dim1 init.
+Proof. intros k sh b []. Qed.
+
+Lemma dim1_copyable s : Dim1 s <-> copyable s = true.
+Proof.
+  unfold Dim1, copyable. rewrite forallb_forall. split.
+  - intros H [[t k] p] Hin. destruct t; try reflexivity. destruct p as [|[sh|] [|] b| |]; try reflexivity.
+    simpl. apply Nat.eqb_eq. eapply H; eauto.
+  - intros H k sh b Hin. specialize (H _ Hin). simpl in H. apply Nat.eqb_eq; assumption.
+Qed.
+
+(* the dimension coordinates of c' are among those of c *)
+Definition dim_sub (c c' : list centry) : Prop :=
+  forall k p, In (DimCoord, k, p) c' -> In (DimCoord, k, p) c.
+
+Lemma dim1_sub s s' : Dim1 s -> dim_sub (cons s) (cons s') -> Dim1 s'.
+Proof. intros H Hs k sh b Hin. eapply H. apply Hs. exact Hin. Qed.
+
+Lemma dim_sub_refl c : dim_sub c c.
+Proof. intros k p H; exact H. Qed.
+
+Lemma dim_sub_cdel t k c : dim_sub c (cdel t k c).
+Proof. intros k0 p H. apply In_cdel in H as [H _]. exact H. Qed.
+
+Lemma dim_sub_clean k c : dim_sub c (map (clean_ref k) c).
+Proof.
+  intros k0 p H. apply In_map_clean in H as [p0 [Hin Hp]]. cbn [ctyp ckey fst snd] in *.
+  rewrite clean_payload_id in Hp by discriminate. subst. exact Hin.
+Qed.
+
+Lemma dim_sub_clean_in rk k c : dim_sub c (map (clean_in rk k) c).
+Proof.
+  intros k0 p H. apply in_map_iff in H as [[[t0 k1] p0] [Heq Hin]].
+  destruct (clean_in_shape rk k t0 k1 p0) as [q [Hs Hq]]. rewrite Hs in Heq. inversion Heq; subst.
+  destruct Hq as [->| ->]; [exact Hin|]. rewrite clean_payload_id by discriminate. exact Hin.
+Qed.
+
+Lemma dim_sub_trans c1 c2 c3 : dim_sub c1 c2 -> dim_sub c2 c3 -> dim_sub c1 c3.
+Proof. intros A B k p H. apply A, B, H. Qed.
+
+Lemma dim1_with s c' cty cax fs fa : Dim1 s -> dim_sub (cons s) c' -> Dim1 (mkS c' cty cax fs fa).
+Proof. intros H Hs. apply (dim1_sub s); assumption. Qed.
+
+Lemma dim1_cset s t key p cty cax fs fa :
+  Dim1 s -> copyable_entry (t, EmptyString, p) = true -> Dim1 (mkS (cset t key p (cons s)) cty cax fs fa).
+Proof.
+  intros H Hc k sh b Hin. cbn [cons] in Hin. apply In_cset in Hin as [Heq|[Hin _]].
+  - inversion Heq; subst. simpl in Hc. apply Nat.eqb_eq; assumption.
+  - eapply H; eauto.
+Qed.
+
+Lemma set_construct_g_dim1 fda v t p k axes s : Dim1 s -> Dim1 (fst (set_construct_g fda v t p k axes s)).
+Proof.
+  intro H. unfold set_construct_g.
+  destruct (negb (kind_ok t p)); [exact H|].
+  destruct (negb (copyable_entry (t, EmptyString, p))) eqn:Ec; [exact H|]. apply negb_false_iff in Ec.
+  repeat match goal with
+         | |- Dim1 (fst (if ?c then _ else _)) => destruct c
+         | |- Dim1 (fst (match ?x with Some _ => _ | None => _ end)) => destruct x
+         | |- Dim1 (fst (_, _)) => cbn [fst]
+         end; try exact H; apply dim1_cset; assumption.
+Qed.
+
+Lemma del_construct_core_g_dim1 fda v k s : Dim1 s -> Dim1 (fst (del_construct_core_g fda v k s)).
+Proof.
+  intro H. unfold del_construct_core_g.
+  repeat match goal with
+         | |- Dim1 (fst (if ?c then _ else _)) => destruct c
+         | |- Dim1 (fst (match ?x with Some _ => _ | None => _ end)) => destruct x
+         | |- Dim1 (fst (_, _)) => cbn [fst]
+         end; try exact H; apply (dim1_with s); auto.
+  - apply dim_sub_cdel.
+  - eapply dim_sub_trans; [apply dim_sub_clean|apply dim_sub_cdel].
+  - apply dim_sub_clean.
+Qed.
+
+Lemma del_construct_g_dim1 fda v k s : Dim1 s -> Dim1 (fst (del_construct_g fda v k s)).
+Proof.
+  intro H. unfold del_construct_g.
+  repeat match goal with
+         | |- Dim1 (fst (if ?c then _ else _)) => destruct c
+         | |- Dim1 (fst (match ?x with _ => _ end)) => destruct x
+         end; try exact H; apply del_construct_core_g_dim1; assumption.
+Qed.
+
+(* operations that do not touch the constructs *)
+Lemma dim1_same_cons s s' : Dim1 s -> cons s' = cons s -> Dim1 s'.
+Proof. intros H E k sh b Hin. rewrite E in Hin. eapply H; eauto. Qed.
+
+Ltac same_cons H :=
+  repeat match goal with
+         | |- context [if ?c then _ else _] => destruct c
+         | |- context [match ?x with Some _ => _ | None => _ end] => destruct x
+         end;
+  cbn [fst]; try exact H; try (apply (dim1_same_cons _ _ H); reflexivity).
+
+Lemma set_data_dim1 sh axes s : Dim1 s -> Dim1 (fst (set_data sh axes s)).
+Proof. intro H. unfold set_data, set_field_axes. same_cons H. Qed.
+
+Lemma del_data_dim1 s : Dim1 s -> Dim1 (fst (del_data s)).
+Proof. intro H. unfold del_data. same_cons H. Qed.
+
+Lemma set_data_axes_dim1 v axs k s : Dim1 s -> Dim1 (fst (set_data_axes v axs k s)).
+Proof. intro H. unfold set_data_axes, set_field_axes. same_cons H. Qed.
+
+Lemma del_data_axes_dim1 v k s : Dim1 s -> Dim1 (fst (del_data_axes v k s)).
+Proof. intro H. unfold del_data_axes. same_cons H. Qed.
+
+Lemma squeeze_dim1 a i s : Dim1 s -> Dim1 (fst (squeeze a i s)).
+Proof. intro H. unfold squeeze, with_field. same_cons H. Qed.
+
+(* a loop over the constructs whose body keeps dimension coordinates 1-d *)
+Definition entry_dim1 (f : entry_fn) : Prop :=
+  forall k p e' u, f (DimCoord, k, p) = Some (e', u) -> copyable_entry (DimCoord, k, p) = true ->
+    exists p', e' = (DimCoord, k, p') /\ copyable_entry (DimCoord, k, p') = true.
+
+Lemma copyable_entry_dim1 s k p : Dim1 s -> In (DimCoord, k, p) (cons s) -> copyable_entry (DimCoord, k, p) = true.
+Proof.
+  intros H Hin. destruct p as [|[sh|] [|] b| |]; try reflexivity. simpl. apply Nat.eqb_eq. eapply H; eauto.
+Qed.
+
+Lemma loop_constructs_dim1 s f done c' cax' b cty fs fa :
+  Inv s -> Dim1 s -> entry_good s f -> entry_dim1 f ->
+  loop_constructs f done (cons s) (caxes s) = (c', cax', b) -> Dim1 (mkS c' cty cax' fs fa).
+Proof.
+  intros I H Hgood Hd Hl.
+  destruct (loop_constructs_spec f done (cons s) (caxes s)) as [g [b' [Hg Heq]]].
+  rewrite Heq in Hl. inversion Hl; subst. intros k sh bb Hin. cbn [cons] in Hin.
+  apply in_map_iff in Hin as [[[t0 k0] p0] [Heq' Hin0]].
+  destruct (Hg (t0, k0, p0)) as [E|E].
+  - rewrite E in Heq'. cbn in Heq'. inversion Heq'; subst. eapply H; eauto.
+  - destruct (g (t0, k0, p0)) as [e' u] eqn:Eg. cbn in Heq'. subst e'.
+    destruct (Hgood t0 k0 p0 _ u Hin0 E) as [p' [Hp' _]]. inversion Hp'; subst.
+    destruct (Hd k0 p0 _ u E (copyable_entry_dim1 s k0 p0 H Hin0)) as [q [Hq Hc]]. inversion Hq; subst.
+    simpl in Hc. apply Nat.eqb_eq; assumption.
+Qed.
+
+Lemma transpose_entry_dim1 nda cax : entry_dim1 (transpose_entry nda cax).
+Proof.
+  intros k p e' u H Hc. unfold transpose_entry in H.
+  destruct p as [n|sh hd bnd|cs ancs|axs]; try (inversion H; subst; eauto; fail).
+  destruct sh as [sh|]; [|inversion H; subst; eauto].
+  destruct hd; [|inversion H; subst; eauto].
+  simpl in Hc. apply Nat.eqb_eq in Hc.
+  replace (2 <=? length sh)%nat with false in H by (rewrite Hc; reflexivity).
+  rewrite andb_false_r in H. inversion H; subst. exists (PArr (Some sh) true bnd). split; [reflexivity|].
+  simpl. rewrite Hc. reflexivity.
+Qed.
+
+Lemma insert_entry_dim1 a cpos ax0 cax : entry_dim1 (insert_entry a cpos ax0 cax).
+Proof.
+  intros k p e' u H Hc. unfold insert_entry in H.
+  destruct p as [n|sh hd bnd|cs ancs|axs]; try (inversion H; subst; eauto; fail).
+  destruct sh as [sh|]; [|inversion H; subst; eauto].
+  destruct hd; [|inversion H; subst; eauto].
+  cbn [is_array ctype_eqb negb andb] in H. inversion H; subst. eauto.
+Qed.
+
+Lemma transpose_dim1 axes c inplace done s : Inv s -> Dim1 s -> Dim1 (fst (transpose axes c inplace done s)).
+Proof.
+  intros I H. unfold transpose, with_field.
+  repeat match goal with
+         | |- Dim1 (fst (if ?c then _ else _)) => destruct c
+         | |- Dim1 (fst (match loop_constructs ?f ?d ?c0 ?x with _ => _ end)) =>
+             let El := fresh "El" in destruct (loop_constructs f d c0 x) as [[c' cax'] b] eqn:El;
+             assert (Dim1 (mkS c' (ctys s) cax' (fshape s) (faxes s)))
+               by (eapply loop_constructs_dim1; eauto;
+                   [apply transpose_entry_good; assumption|apply transpose_entry_dim1]);
+             destruct b
+         | |- Dim1 (fst (match ?x with _ => _ end)) => destruct x
+         | |- Dim1 (fst (_, _)) => cbn [fst]
+         | |- Dim1 (if ?c then _ else _) => destruct c
+         end; try exact H; try (apply (dim1_same_cons _ _ H); reflexivity);
+    match goal with Hl : Dim1 (mkS ?c' _ _ _ _) |- _ => apply (dim1_same_cons _ _ Hl); reflexivity end.
+Qed.
+
+Lemma insert_dimension_dim1 axis pos c inplace done s :
+  Inv s -> Dim1 s -> Dim1 (fst (insert_dimension axis pos c inplace done s)).
+Proof.
+  intros I H. unfold insert_dimension.
+  destruct (negb inplace && negb (copyable s)); [exact H|].
+  assert (Hr : forall r, r = (match axis with
+           | None => match set_construct VField DomainAxis (PAxis 1) None None s, new_identifier s DomainAxis with
+                     | (s1, Done), Some a => inl (s1, a)
+                     | (_, Done), None => inr OutOfModel
+                     | (_, o), _ => inr o end
+           | Some a => match axis_size (cons s) a with
+                       | Some 1 => inl (s, a)
+                       | _ => inr (Rejected ValueErr) end
+           end) ->
+           match r with
+           | inr _ => True
+           | inl (s1, a) => Inv s1 /\ Dim1 s1 /\ axis_size (cons s1) a = Some 1
+           end).
+  { intros r ->. destruct axis as [a|].
+    - destruct (axis_size (cons s) a) as [[|[| |]|]|] eqn:E; auto.
+    - destruct (new_identifier s DomainAxis) as [a|] eqn:En.
+      + rewrite (set_new_axis s a I En). splits.
+        * pose proof (set_construct_inv VField DomainAxis (PAxis 1) None None s I Coq.Init.Logic.I) as H1.
+          rewrite (set_new_axis s a I En) in H1. exact H1.
+        * apply dim1_cset; [exact H|reflexivity].
+        * cbn [cons]. rewrite axis_size_cset_axis, String.eqb_refl. reflexivity.
+      + destruct (set_construct VField DomainAxis (PAxis 1) None None s) as [s1 [| |]]; exact Coq.Init.Logic.I. }
+  match goal with |- context [match ?x with inl _ => _ | inr _ => _ end] =>
+    specialize (Hr x eq_refl); destruct x as [[s1 a]|o] end; [|exact H].
+  destruct Hr as [I1 [H1 Ha]].
+  assert (Hback : Dim1 (if inplace then s1 else s)) by (destruct inplace; assumption).
+  cbv zeta.
+  repeat match goal with
+         | |- Dim1 (fst (match loop_constructs ?f ?d ?c0 ?x with _ => _ end)) =>
+             let El := fresh "El" in destruct (loop_constructs f d c0 x) as [[c' cax'] b] eqn:El;
+             assert (Dim1 (mkS c' (ctys s1) cax' (fshape s1) (faxes s1)))
+               by (eapply loop_constructs_dim1; eauto;
+                   [apply insert_entry_good; assumption|apply insert_entry_dim1]);
+             destruct b
+         | |- Dim1 (fst (if ?c then _ else _)) => destruct c
+         | |- Dim1 (fst (match ?x with _ => _ end)) => destruct x
+         | |- Dim1 (fst (_, _)) => cbn [fst]
+         | |- Dim1 (if ?c then _ else _) => destruct c
+         end; unfold with_field;
+    try exact H; try exact H1; try exact Hback;
+    try (apply (dim1_same_cons _ _ H1); reflexivity);
+    match goal with Hl : Dim1 (mkS ?c' _ _ _ _) |- _ => apply (dim1_same_cons _ _ Hl); reflexivity end.
+Qed.
+
+(* subspace keeps the rank of every construct *)
+Lemma zip_length {A B} (l1 : list A) (l2 : list B) : length l1 = length l2 -> length (zip l1 l2) = length l2.
+Proof.
+  revert l2; induction l1 as [|x r IH]; intros [|y r2] H; simpl in *; try discriminate; auto.
+Qed.
+
+Lemma resize_axes_dim_sub ups : forall c, dim_sub c (resize_axes c ups).
+Proof.
+  induction ups as [|[a n] r IH]; intros c; [apply dim_sub_refl|].
+  unfold resize_axes in *. cbn [fold_left fst snd].
+  destruct (cget DomainAxis a c); [|apply IH].
+  eapply dim_sub_trans; [|apply IH]. intros k0 p0 Hin. apply In_cset in Hin as [Heq|[Hin _]]; [discriminate|exact Hin].
+Qed.
+
+Lemma subspace_dim1 sel s : Dim1 s -> Dim1 (fst (subspace sel s)).
+Proof.
+  intros H. unfold subspace.
+  destruct (negb (copyable s)); [exact H|].
+  destruct (fshape s) as [sh|]; [|exact H].
+  destruct (negb (Nat.eqb (length sel) (length sh))); [exact H|].
+  destruct (faxes s) as [fax|]; [|exact H].
+  destruct (mapM (fun x => x) sel) as [newsz|]; [|exact H].
+  destruct (existsb (Z.eqb 0) newsz); [exact H|].
+  destruct (negb (Nat.eqb (length fax) (length sh))); [exact H|].
+  destruct (axes_sizes (cons s) fax); [|exact H].
+  cbv zeta.
+  destruct (negb (check_field_axes (resize_axes (cons s) (zip fax newsz)) (Some newsz) fax)); [exact H|].
+  destruct (mapM (sub_entry fax newsz (caxes s)) (resize_axes (cons s) (zip fax newsz))) as [c2|] eqn:Em; [|exact H].
+  destruct (all_fit c2 (caxes s) && check_field_axes c2 (Some newsz) fax); [|exact H].
+  cbn [fst]. intros k sh' b Hin. cbn [cons] in Hin.
+  destruct (mapM_In _ _ _ _ Em Hin) as [[[t0 k0] p0] [Hin0 Hs]].
+  unfold sub_entry in Hs.
+  destruct p0 as [n|sh0 hd bnd|cs ancs|axs]; try (inversion Hs; fail).
+  assert (Hold : forall sh1, (t0, k0, PArr sh0 hd bnd) = (DimCoord, k, PArr (Some sh1) true b) -> length sh1 = 1%nat).
+  { intros sh1 Heq. inversion Heq; subst. eapply H. eapply resize_axes_dim_sub. exact Hin0. }
+  destruct (assoc k0 (caxes s)) as [ca|]; [|inversion Hs; subst; apply Hold; reflexivity].
+  destruct (negb (existsb (fun a => memb a fax) ca)); [inversion Hs; subst; apply Hold; reflexivity|].
+  destruct sh0 as [shp|]; [|discriminate].
+  destruct (negb (Nat.eqb (length shp) (length ca))) eqn:El; [discriminate|].
+  apply negb_false_iff, Nat.eqb_eq in El.
+  inversion Hs; subst. rewrite map_length, zip_length by (symmetry; exact El).
+  apply (Hold shp). reflexivity.
+Qed.
+
+Lemma convert_dim1 k full s : Dim1 s -> Dim1 (fst (convert k full s)).
+Proof.
+  intros H. unfold convert, convert_with.
+  destruct (assoc k (ctys s)) as [t|]; [|exact H].
+  destruct (negb (is_array t)); [exact H|].
+  destruct (cget t k (cons s)) as [p|]; [|exact H].
+  destruct (negb (copyable_entry (t, k, p))); [exact H|].
+  destruct (phasdata p); [|exact H].
+  destruct (pshape p) as [sh|]; [|exact H].
+  destruct (assoc k (caxes s)) as [dax|].
+  2:{ destruct (negb full); [exact dim1_init|]. cbv zeta.
+      repeat match goal with |- context [if ?c then _ else _] => destruct c end;
+        first [exact H|exact dim1_init]. }
+  destruct (axes_sizes (cons s) dax) as [szs|]; [|exact H].
+  destruct (negb (zlist_eqb sh szs)); [exact H|].
+  cbv zeta.
+  assert (Hax : forall a k0 p0, ~ In (DimCoord, k0, p0)
+            (map (fun a0 => (DomainAxis, a0, PAxis (match axis_size (cons s) a0 with Some n => n | None => 0 end))) a)).
+  { intros a k0 p0 Hin. apply in_map_iff in Hin as [a0 [Heq _]]. discriminate. }
+  destruct (negb full).
+  - cbn [fst]. apply (dim1_with s); auto. intros k0 p0 Hin. exfalso. eapply Hax; eauto.
+  - destruct (negb (forallb copyable_entry (filter (conv_keep s dax) (cons s)))); [exact H|].
+    destruct (mapM (conv_ref s dax) (cons s)) as [contrib|] eqn:Em; [|exact H].
+    cbn [fst]. apply (dim1_with s); auto. intros k0 p0 Hin.
+    apply in_app_or in Hin as [Hin|Hin]; [exfalso; eapply Hax; eauto|].
+    apply in_app_or in Hin as [Hin|Hin]; [apply filter_In in Hin as [Hin _]; exact Hin|].
+    exfalso. apply dedup_In in Hin. apply in_concat in Hin as [l [Hl Hin]].
+    destruct (mapM_In _ _ _ _ Em Hl) as [e0 [He0 Hc]].
+    unfold conv_ref in Hc. destruct e0 as [[[] rk] p1]; try (inversion Hc; subst; contradiction).
+    destruct p1 as [|?|cs1 ancs1|]; try (inversion Hc; subst; contradiction).
+    destruct (mapM (fun c => assoc c (caxes s)) cs1) as [caxs1|]; [|discriminate].
+    destruct (map fst (filter (fun ca => subset (snd ca) dax) (zip cs1 caxs1))); [inversion Hc; subst; contradiction|].
+    destruct (anc_scan (caxes s) dax ancs1) as [[|]|]; try discriminate; [|inversion Hc; subst; contradiction].
+    inversion Hc; subst l. destruct Hin as [Heq|Hin]; [discriminate|].
+    apply in_flat_map in Hin as [[tm oa] [_ Hin]]. cbn [snd] in Hin.
+    destruct oa as [a0|]; [|contradiction].
+    destruct (cget DomainAnc a0 (cons s)); [|contradiction]. destruct Hin as [Heq|[]]. discriminate.
+Qed.
+
+Lemma step_g_dim1 fda s o : Inv s -> Dim1 s -> Dim1 (fst (step_g fda s o)).
+Proof.
+  intros I H. destruct o; cbn [step_g step].
+  - apply set_construct_g_dim1; assumption.
+  - apply del_construct_g_dim1; assumption.
+  - apply set_data_dim1; assumption.
+  - apply del_data_dim1; assumption.
+  - apply set_data_axes_dim1; assumption.
+  - apply del_data_axes_dim1; assumption.
+  - destruct (copyable s); exact H.
+  - apply subspace_dim1; assumption.
+  - apply squeeze_dim1; assumption.
+  - apply transpose_dim1; assumption.
+  - apply insert_dimension_dim1; assumption.
+  - apply convert_dim1; assumption.
+Qed.
+
+Lemma step_dim1 s o : Inv s -> Dim1 s -> Dim1 (fst (step s o)).
+Proof. intros I H. rewrite <- step_g_root. apply step_g_dim1; assumption. Qed.
+
+Lemma clean_names_dim1 ks : forall s, Dim1 s -> Dim1 (clean_names ks s).
+Proof.
+  unfold clean_names. induction ks as [|[rk k] r IH]; intros s H; simpl; [exact H|].
+  apply IH. apply (dim1_with s); [exact H|apply dim_sub_clean_in].
+Qed.
+
+Lemma wstep_dim1 w wo : wf w -> Inv (root w) -> Dim1 (root w) -> Dim1 (root (fst (wstep w wo))).
+Proof.
+  intros Hw I H. destruct wo as [o|r route|r o|ks].
+  - unfold wstep, wstep_with. pose proof (step_dim1 (root w) o I H) as H1.
+    destruct (step (root w) o) as [s' out]. exact H1.
+  - unfold wstep, wstep_with. destruct (reg_valid w r); exact H.
+  - unfold wstep, wstep_with. destruct r as [|i]; [exact H|].
+    destruct (nth_error (views w) i) as [v|]; [|exact H]. destruct (viewable o); [|exact H].
+    pose proof (step_g_dim1 (reg_fda w (vsrc v)) (root w) o I H) as H1.
+    destruct (step_g (reg_fda w (vsrc v)) (root w) o) as [s' out]. exact H1.
+  - apply clean_names_dim1. exact H.
+Qed.
+
+Lemma wrun_inv_dim1_from ops : forall w, wf w -> Inv (root w) -> Dim1 (root w) -> wops_ok w ops ->
+  Inv (root (fold_left (fun w o => fst (wstep w o)) ops w)) /\
+  Dim1 (root (fold_left (fun w o => fst (wstep w o)) ops w)).
+Proof.
+  induction ops as [|o r IH]; intros w Hw I H Hok; simpl in *; [auto|].
+  destruct Hok as [H1 H2].
+  apply IH; [apply wstep_wf|apply wstep_inv|apply wstep_dim1|]; assumption.
+Qed.
+
+(* in a consistent state with 1-d dimension coordinates every dimension
+   coordinate that has data and recorded axes spans exactly one axis, and
+   the field can be copied *)
+Lemma dimcoord_one_axis s k sh b axs :
+  Inv s -> Dim1 s -> In (DimCoord, k, PArr (Some sh) true b) (cons s) -> assoc k (caxes s) = Some axs ->
+  exists a n, axs = [a] /\ sh = [n] /\ axis_size (cons s) a = Some n.
+Proof.
+  intros I H Hin Ha. pose proof (H k sh b Hin) as Hl.
+  destruct (held_axes_fit s _ _ _ axs I Hin Ha) as [_ Hc]. apply check_axes_some in Hc.
+  pose proof (axes_sizes_length _ _ _ Hc) as Hlen.
+  destruct sh as [|n [|? ?]]; try discriminate. destruct axs as [|a [|? ?]]; try discriminate.
+  exists a, n. splits; auto. simpl in Hc. destruct (axis_size (cons s) a); [|discriminate]. congruence.
+Qed.
+
+Lemma reachable_dimcoord ops :
+  wops_ok winit ops ->
+  let s := root (wrun ops) in
+  copyable s = true /\
+  forall k sh b axs, In (DimCoord, k, PArr (Some sh) true b) (cons s) -> assoc k (caxes s) = Some axs ->
+    exists a n, axs = [a] /\ sh = [n] /\ axis_size (cons s) a = Some n.
+Proof.
+  intro Hok. destruct (wrun_inv_dim1_from ops winit wf_init inv_init dim1_init Hok) as [I H].
+  split; [apply dim1_copyable; exact H|]. intros. eapply dimcoord_one_axis; eauto.
+Qed.
